@@ -483,6 +483,9 @@ type rangeObs struct {
 // instants are ticks of one atomic counter, so "A returned before B was called" in the recorded
 // history implies the same in real time.
 func execCmapConc(args []string) string {
+	if args[0] == "park" {
+		return execCmapPark(args[1:])
+	}
 	target := args[0]
 	ng, _ := strconv.Atoi(args[1])
 	hot, _ := strconv.Atoi(args[2])
@@ -752,6 +755,7 @@ func checkConcHistory(ops []porcupine.Operation, muts []mutOp, lens []lenObs, ra
 }
 
 func genCmapConc(g *Gen) {
+	genCmapPark(g)
 	n := g.pick(24, 1500)
 	for i := 0; i < n; i++ {
 		target := []string{"def", "smap", "1", "2", "3", "16", "100", "0"}[i%8]
@@ -759,5 +763,149 @@ func genCmapConc(g *Gen) {
 		hot := 1 + g.R.Intn(4)
 		total := 200 + g.R.Intn(g.pick(300, 700))
 		g.Emit("cmapconc %s %d %d %d %d", target, ng, hot, total/ng+1, g.R.Intn(1<<30))
+	}
+}
+
+// execCmapPark: `cmapconc park <target> <nkeys> <initmask> <op,op,…>`; ops: s<i>=<v> d<i> l<i> n over the
+// key indices 0..nkeys-1, which at run time are mapped to key strings that share one shard (and so
+// one lock).  A Range is parked inside its callback, i.e. while it holds that lock; the operations
+// are then issued one after the other, each on its own goroutine, and all of them queue on the lock
+// (Len queues there too: it takes every shard's lock).  None of them returns before the Range is
+// released, so they are pairwise concurrent and *every* order of them is a legal linearization; the
+// driver accepts the observation (each operation's result, then the quiescent Load/Len/Range) iff
+// some order explains it.
+func execCmapPark(args []string) string {
+	target := args[0]
+	nkeys, _ := strconv.Atoi(args[1])
+	initmask, _ := strconv.Atoi(args[2])
+	toks := strings.Split(args[3], ",")
+	m := newMapTarget(target)
+
+	keys := []string{"p-0"}
+	if cm, ok := m.(cmAdapter); ok {
+		for i := 1; len(keys) < nkeys; i++ {
+			k := "p-" + strconv.Itoa(i)
+			if cm.m.GetSharding(k) == cm.m.GetSharding(keys[0]) {
+				keys = append(keys, k)
+			}
+		}
+	} else {
+		for i := 1; len(keys) < nkeys; i++ {
+			keys = append(keys, "p-"+strconv.Itoa(i))
+		}
+	}
+	idx := map[string]int{}
+	for i, k := range keys {
+		idx[k] = i
+		if initmask&(1<<i) != 0 {
+			m.Store(k, 10+i)
+		}
+	}
+
+	entered, release, rangeDone := make(chan struct{}), make(chan struct{}), make(chan struct{})
+	go func() {
+		defer close(rangeDone)
+		first := true
+		m.Range(func(k string, v int) bool {
+			if first {
+				first = false
+				close(entered)
+				<-release
+			}
+			return false
+		})
+	}()
+	select {
+	case <-entered:
+	case <-time.After(5 * time.Second):
+		return "range-did-not-start"
+	}
+
+	res := make([]string, len(toks))
+	dones := make([]chan struct{}, len(toks))
+	for i, tok := range toks {
+		i, tok := i, tok
+		dones[i] = make(chan struct{})
+		go func() {
+			defer close(dones[i])
+			res[i] = "_"
+			switch tok[0] {
+			case 's':
+				kvs := strings.SplitN(tok[1:], "=", 2)
+				k, _ := strconv.Atoi(kvs[0])
+				v, _ := strconv.Atoi(kvs[1])
+				m.Store(keys[k], v)
+			case 'd':
+				k, _ := strconv.Atoi(tok[1:])
+				m.Delete(keys[k])
+			case 'l':
+				k, _ := strconv.Atoi(tok[1:])
+				if v, ok := m.Load(keys[k]); ok {
+					res[i] = strconv.Itoa(v)
+				} else {
+					res[i] = "-"
+				}
+			case 'n':
+				res[i] = strconv.Itoa(m.Len())
+			}
+		}()
+		select {
+		case <-dones[i]:
+			return "done\tnot-blocked:" + tok // it returned although the lock is held
+		case <-time.After(4 * time.Millisecond):
+		}
+	}
+	close(release)
+	for _, ch := range append(dones, rangeDone) {
+		select {
+		case <-ch:
+		case <-time.After(5 * time.Second):
+			return "operation-did-not-return"
+		}
+	}
+	var final, ranged []kv
+	for i, k := range keys {
+		if v, ok := m.Load(k); ok {
+			final = append(final, kv{i, v})
+		}
+	}
+	m.Range(func(k string, v int) bool {
+		i, ok := idx[k]
+		if !ok {
+			i = 99
+		}
+		ranged = append(ranged, kv{i, v})
+		return true
+	})
+	return fmt.Sprintf("done\t%s;F=%s;L=%d;R=%s", strings.Join(res, "|"), showEntries(final), m.Len(), showEntries(ranged))
+}
+
+func genCmapPark(g *Gen) {
+	n := g.pick(60, 600)
+	for i := 0; i < n; i++ {
+		target := []string{"def", "smap", "1", "2", "16", "100"}[i%6]
+		nkeys := 2 + g.R.Intn(3)
+		initmask := 1 + g.R.Intn(1<<nkeys-1)
+		nops := 2 + g.R.Intn(3)
+		var ops []string
+		for j := 0; j < nops; j++ {
+			k := g.R.Intn(nkeys)
+			switch c := g.R.Intn(10); {
+			case c < 4:
+				ops = append(ops, fmt.Sprintf("s%d=%d", k, 20+j))
+			case c < 8:
+				ops = append(ops, fmt.Sprintf("d%d", k))
+			case c < 9:
+				ops = append(ops, fmt.Sprintf("l%d", k))
+			default:
+				ops = append(ops, "n")
+			}
+		}
+		if i%3 == 0 { // the shard is drained while later operations are queued on its lock
+			b := g.R.Intn(nkeys)
+			initmask = 1 << b
+			ops[0] = fmt.Sprintf("d%d", b)
+		}
+		g.Emit("cmapconc park %s %d %d %s", target, nkeys, initmask, strings.Join(ops, ","))
 	}
 }
